@@ -541,6 +541,20 @@ func (e *Exec) bufferCall(call *ast.CallExpr, name string, st *State, ctx *Ctx) 
 		st.encs[h] = [3]string{b, codec, "0"}
 		return []string{h}, true
 	}
+	if name == "encoding/json.NewDecoder" && len(call.Args) == 1 {
+		// json.NewDecoder(bytes.NewReader(in)): a decoder over the text in; its ghost state is (source, configuration,
+		// number of Decode calls so far), kept like an encoder's
+		if inner, ok := call.Args[0].(*ast.CallExpr); ok && len(inner.Args) == 1 {
+			if nm, _ := e.extName(inner, ctx); nm == "bytes.NewReader" || nm == "strings.NewReader" || nm == "bytes.NewBuffer" || nm == "bytes.NewBufferString" {
+				src := e.eval(inner.Args[0], st, ctx)
+				h := e.fresh(st, "decoder", "Int")
+				st.assume("(> " + h + " 0)")
+				st.encs[h] = [3]string{"src:" + src, "codecJSONdec", "0"}
+				e.note("json.Decoder over a byte slice: the k-th Decode yields decV(config, text, k) / decE(config, text, k), uninterpreted (assumed: the decoder is a deterministic function of the text and its configuration)")
+				return []string{h}, true
+			}
+		}
+	}
 	sel, ok := call.Fun.(*ast.SelectorExpr)
 	if !ok {
 		return nil, false
@@ -549,7 +563,7 @@ func (e *Exec) bufferCall(call *ast.CallExpr, name string, st *State, ctx *Ctx) 
 		return nil, false
 	}
 	recvT := e.typeOf(sel.X, ctx)
-	if recvT == nil || !(strings.Contains(types.TypeString(recvT, nil), "Buffer") || strings.Contains(types.TypeString(recvT, nil), "Encoder")) {
+	if recvT == nil || !(strings.Contains(types.TypeString(recvT, nil), "Buffer") || strings.Contains(types.TypeString(recvT, nil), "Encoder") || strings.Contains(types.TypeString(recvT, nil), "Decoder")) {
 		return nil, false
 	}
 	recv := e.eval(sel.X, st, ctx)
@@ -576,7 +590,33 @@ func (e *Exec) bufferCall(call *ast.CallExpr, name string, st *State, ctx *Ctx) 
 			e.global(fn, fmt.Sprintf("(declare-fun %s (Int) Int)", fn))
 			st.encs[recv] = [3]string{enc[0], "(" + fn + " " + enc[1] + ")", enc[2]}
 			return nil, true
+		case "UseNumber", "DisallowUnknownFields":
+			if strings.HasPrefix(enc[0], "src:") {
+				fn := "cfg_" + sel.Sel.Name
+				if fn != "cfg_UseNumber" { // cfg_UseNumber is declared in the prelude (the reader's contract names it)
+					e.global(fn, fmt.Sprintf("(declare-fun %s (Int) Int)", fn))
+				}
+				st.encs[recv] = [3]string{enc[0], "(" + fn + " " + enc[1] + ")", enc[2]}
+				return nil, true
+			}
+		case "Decode":
+			if strings.HasPrefix(enc[0], "src:") && len(call.Args) == 1 {
+				if u, ok := call.Args[0].(*ast.UnaryExpr); ok && u.Op.String() == "&" {
+					if id, ok := u.X.(*ast.Ident); ok {
+						if v, ok := e.info(ctx).ObjectOf(id).(*types.Var); ok && isAny(v.Type()) {
+							src := strings.TrimPrefix(enc[0], "src:")
+							st.env[v] = "(decV " + enc[1] + " " + src + " " + enc[2] + ")"
+							errT := "(decE " + enc[1] + " " + src + " " + enc[2] + ")"
+							st.encs[recv] = [3]string{enc[0], enc[1], "(+ " + enc[2] + " 1)"}
+							return []string{errT}, true
+						}
+					}
+				}
+			}
 		case "Encode":
+			if strings.HasPrefix(enc[0], "src:") {
+				return nil, false
+			}
 			v := e.evalTo(call.Args[0], types.NewInterfaceType(nil, nil), st, ctx)
 			errT := "(encE " + enc[1] + " " + v + " " + enc[2] + ")"
 			content := st.bufs[enc[0]]
